@@ -16,7 +16,7 @@ Alternative write histories: every order of the triple list (other ids, other re
 are re-ordered the way a multi-process run may leave them.  Thorough adds second-level crashes: every prefix of
 every resumed file of the smallest shape that is not itself a prefix of L.
 """
-import os, json, zlib, gzip, types, itertools, traceback
+import os, json, zlib, gzip, types, itertools, traceback, base64, hashlib
 
 from vf.core import Check, HarnessError, REPO, tmpdir
 
@@ -213,6 +213,32 @@ def reorder(lines, how):
     return head + body
 
 
+# result-file names (relative to the per-worker scratch directory).  coba decides by `".gz" in filename` whether a file is gzip
+# framed, at several sites (DiskSink, DiskSource, the repair in Experiment.run) that have to agree; the harness takes the framing
+# from the magic bytes of the file the uninterrupted run leaves, not from the name.
+NAMES = {'plain': 'r.log', 'gz': 'r.log.gz', 'mid': 'r.gz.bak', 'ext': 'r.log.gzip', 'num': 'r.gz.1', 'dir': 'sweep.gz.d/r.log',
+         'dirgz': 'sweep.gz.d/r.log.gz', 'nodot': 'rgz.log'}
+
+
+def fname(h): return NAMES[h.get('name') or h['kind']]
+
+
+def name_class(h):
+    n = fname(h)
+    return ', file name with ".gz" not at its end' if '.gz' in n and not n.endswith('.gz') else ''
+
+
+def is_gz(data): return data[:2] == b'\x1f\x8b'
+
+
+def pad_text(n, variant):
+    """n characters of a fixed hardly compressible ASCII stream (prefix-stable in n)."""
+    out, j = [], 0
+    while 43 * j < n:
+        out.append(base64.b64encode(hashlib.sha256(b'c02-pad-%d-%d' % (variant, j)).digest()).decode('ascii')[:43]); j += 1
+    return ''.join(out)[:n]
+
+
 BLOCK = 2 ** 16          # the buffer size that is visible in the recovery code (Experiment._drop_unfinished_line / _member)
 
 
@@ -270,7 +296,13 @@ class C02(Check):
             '{0,a,b,n}, all j, d in -3..3 (block boundaries counted from the start and from the END of the file and from both ends of the long record, its '
             'first/last 3 bytes) plus e-1,e,e+1 for every record boundary e (plain and gz; thorough: 3 triple orders x 3 record orders). Shape S6 (4 triples, '
             'one of them evaluated by a custom evaluator that yields ZERO rows, record ["I",ids,{"_packed":{}}], between normal triples) is cut at every byte '
-            'incl. the complete file (thorough: 3 record orders)')
+            'incl. the complete file (thorough: 3 record orders). File names: besides r.log / r.log.gz, S1 (thorough also S2) is run on names with ".gz" inside '
+            'the base name (r.gz.bak), as a longer extension (r.log.gzip), before a number (r.gz.1), in a directory name (sweep.gz.d/r.log, sweep.gz.d/r.log.gz) '
+            'and "gz" without dot (rgz.log), every byte-prefix each; the gz/plain framing is taken from the magic bytes the real writer leaves. Block-aligned '
+            'record boundaries: S1 with the experiment description padded (hardly compressible text; length found with the real DiskSink) so that record i '
+            '(1 = the long experiment record, 4 = the E record behind it) ENDS exactly at file offset T; quick: gz (i,T) in {(1,65535),(1,65536),(1,65537),'
+            '(1,131072),(4,65536)} and plain (1,65536); thorough: gz and plain x i in {1,4} x T in {65536,131072}+{-1,0,1}; cut at every byte from T-8 to the '
+            'end of the file plus the block-straddling offset set above; thorough additionally cuts the gz (1,65536) log at EVERY byte')
     ASSUMPTIONS = [
         'crash model: a killed run leaves a byte-prefix of the append-only log (process kill; no page-cache reordering, no power loss)',
         'resumed runs are in-process, plus - for the first order of the 2x2 / 4-triple shapes - on worker processes (2,0,0) [thorough also (1,1,1),(2,1,0)] run on the simulated spawn context under the default schedule only (schedules of the resumed run are C01\'s subject)',
@@ -286,6 +318,8 @@ class C02(Check):
         'the version line may occur more than once in the final file (harmless); E/L/V/I records may not',
         'how often a triple that is NOT recorded is evaluated by the resumed run is not constrained (its rows must be right)',
         're-ordered logs are built from the real records of the real run, written through the real DiskSink(batch=1)',
+        'whether a result file name means gzip framing is not constrained: the framing is read off the file the uninterrupted run leaves; only that write, '
+        'read and repair agree for every name is demanded (through the resume oracle)',
         'the mtime in gzip member headers and the clock read by SequentialCB(record=time) are pinned, so that the write history of a shape is one '
         'byte string (checked: two uninterrupted runs must leave identical bytes); environments are a cheap deterministic harness environment, '
         'learners and evaluators are real coba ones behind call-recording wrappers',
@@ -317,6 +351,19 @@ class C02(Check):
         for kind in ('plain', 'gz'):
             for lines in ('asis',) if quick else ('asis', 'rev', 'rot'):
                 yield {'shape': 'S6', 'order': [0, 1, 2, 3], 'lines': lines, 'kind': kind}
+        # file names: ".gz" inside the base name / as a longer extension / before a number / in a directory name / "gz" without dot
+        for name in ('mid', 'ext', 'num', 'dir', 'dirgz', 'nodot'):
+            for shape, order in (('S1', [0]),) if quick else (('S1', [0]), ('S2', [0, 1, 2, 3])):
+                yield {'shape': shape, 'order': order, 'lines': 'asis', 'kind': 'gz' if '.gz' in NAMES[name] else 'plain', 'name': name}
+        # a record boundary exactly on / next to a multiple of the 64 KiB buffer of the repair routines (padded experiment description)
+        if quick:
+            aligned = [('gz', 1, BLOCK - 1), ('gz', 1, BLOCK), ('gz', 1, BLOCK + 1), ('gz', 1, 2 * BLOCK), ('gz', 4, BLOCK), ('plain', 1, BLOCK)]
+        else:
+            aligned = [(kind, i, j * BLOCK + d) for kind in ('gz', 'plain') for i in (1, 4) for j in (1, 2) for d in (-1, 0, 1)]
+        for kind, i, T in aligned:
+            yield {'shape': 'S1', 'order': [0], 'lines': 'asis', 'kind': kind, 'align': [i, T], 'offsets': 'align'}
+        if not quick:       # the heavy sweep: EVERY byte-prefix of a .gz log whose 64 KiB record ends exactly on the block boundary
+            yield {'shape': 'S1', 'order': [0], 'lines': 'asis', 'kind': 'gz', 'align': [1, BLOCK], 'offsets': 'all'}
         o2 = ORD_S2_QUICK if quick else [list(p) for p in itertools.permutations(range(4))]
         o4 = ORD_S4_QUICK if quick else [list(p) for p in itertools.permutations(range(4))]
         for shape, orders in (('S2', o2), ('S4', o4)):
@@ -339,6 +386,7 @@ class C02(Check):
                     cfgs += [[2, 0, 0], [1, 1, 1], [2, 1, 0]]
             for cfg in cfgs:
                 n = {'S1': 6, 'S2': 16, 'S4': 24, 'S5': 16, 'S6': 16}[h['shape']] * (3 if h['kind'] == 'gz' and h['shape'] != 'S5' else 2) // 2
+                if h.get('align'): n = 512 if h['offsets'] == 'all' else 16
                 for i in range(n):
                     yield {**h, 'config': cfg, 'chunk': [i, n]}
 
@@ -349,22 +397,66 @@ class C02(Check):
         CobaContext.cacher = MemoryCacher()
         CobaContext.logger = NullLogger()
         self._refs = {}
+        self._pads = {}
         self._pid = os.getpid()
 
-    def _path(self, sub, gz):
-        d = os.path.join(_SCRATCH, str(os.getpid()), sub)
-        os.makedirs(d, exist_ok=True)
-        return os.path.join(d, 'r.log.gz' if gz else 'r.log')      # same basename everywhere: it goes into the gzip member headers
+    def _path(self, sub, h):
+        p = os.path.join(_SCRATCH, str(os.getpid()), sub, fname(h))      # same name everywhere: the base name goes into the gzip member headers
+        os.makedirs(os.path.dirname(p), exist_ok=True)
+        return p
 
-    def _run(self, h, path, log, config=(1, 0, 0)):
+    def _description(self, h):
+        """The experiment description of a history.  None, or for h['align'] = [i, T] the padding text that makes record i of the
+        uninterrupted log END exactly at file offset T (plain: one byte per character; gz: searched with the real DiskSink)."""
+        al = h.get('align')
+        if not al: return None
+        key = json.dumps([h['shape'], h['order'], fname(h), al])
+        if key in self._pads: return self._pads[key]
+        i, T = al
+        path, n0 = self._path('pad', h), T
+        for variant in range(6):
+            if os.path.exists(path): os.unlink(path)
+            st, snap, _ = self._run(h, path, [], desc=pad_text(n0, variant))
+            if st != 'ok': raise HarnessError(f'probe run of {key} raised {snap!r}')
+            with open(path, 'rb') as f: L0 = f.read()
+            os.unlink(path)
+            gz = is_gz(L0)
+            ends = record_ends(L0, gz)
+            need = T - ends[i]
+            if not gz:
+                found = n0 + need
+            else:
+                line0 = (gz_members(L0)[0]).decode('utf-8').split('\n')[1]
+                if pad_text(n0, variant) not in line0: raise HarnessError(f'padding of {key} not found in the experiment record')
+                target = ends[1] - ends[0] + need
+
+                def size(n):
+                    if os.path.exists(path): os.unlink(path)
+                    DiskSink(path, batch=1).write([line0.replace(pad_text(n0, variant), pad_text(n, variant))])
+                    with open(path, 'rb') as f: b = f.read()
+                    os.unlink(path)
+                    return record_ends(b, True)[0]
+                lo, hi = 1, 4 * n0
+                while lo < hi:
+                    mid = (lo + hi) // 2
+                    if size(mid) >= target: hi = mid
+                    else: lo = mid + 1
+                found = next((n for n in range(max(1, lo - 4), lo + 5) if size(n) == target), None)
+            if found is not None and found > 0:
+                self._pads[key] = pad_text(found, variant)
+                return self._pads[key]
+        raise HarnessError(f'no padding found that puts the end of record {i} of {key} at offset {T}')
+
+    def _run(self, h, path, log, config=(1, 0, 0), desc=None):
         """One real Experiment.run on fresh components: ('ok', snapshot, calls) | ('exc', exception, calls).
         A multi-process configuration runs on the simulated spawn context under the scheduler's default schedule."""
+        if desc is None: desc = self._description(h)
         del parts.CALLS[:]
         _CLOCK.t = 0.0
         def body():
             CobaContext.logger = NullLogger(ListSink(log))
             CobaContext.cacher = MemoryCacher()
-            exp = Experiment(parts.triples(h['shape'], h['order']))
+            exp = Experiment(parts.triples(h['shape'], h['order']), description=desc)
             res = exp.run(path, quiet=True, processes=config[0], maxchunksperchild=config[1], maxtasksperchunk=config[2])
             return snapshot(res)
         try:
@@ -392,11 +484,10 @@ class C02(Check):
 
     def reference(self, h):
         """(log bytes L, snapshot of the uninterrupted run) of a history; self-tested for determinism; cached per worker."""
-        key = json.dumps([h['shape'], h['order'], h['lines'], h['kind']])
+        key = json.dumps([h['shape'], h['order'], h['lines'], fname(h), h.get('align')])
         if getattr(self, '_pid', None) != os.getpid(): self.setup('quick')
         if key in self._refs: return self._refs[key]
-        gz = h['kind'] == 'gz'
-        path = self._path('ref', gz)
+        path = self._path('ref', h)
         seen = []
         for _ in range(2):
             if os.path.exists(path): os.unlink(path)
@@ -413,6 +504,9 @@ class C02(Check):
         if L1 != L2 or any(table_diff(s1[n], s2[n]) for n, _ in TABLES) or not same(s1['experiment'], s2['experiment']):
             raise HarnessError(f'two uninterrupted runs of {key} differ (captured nondeterminism)')
         L = L1
+        gz = is_gz(L)
+        if h.get('align') and record_ends(L, gz)[h['align'][0]] != h['align'][1]:
+            raise HarnessError(f"record {h['align'][0]} of {key} ends at {record_ends(L, gz)[h['align'][0]]}, not at {h['align'][1]}")
         if h['lines'] != 'asis':
             # what a multi-process run may leave: the real records in another order, re-written through the real sink
             text = gz_members(L)[0] if gz else L
@@ -431,20 +525,19 @@ class C02(Check):
 
     # ---- one crash point
 
-    def crash_point(self, h, data, ref, acc, feature, witness):
+    def crash_point(self, h, gz, data, ref, acc, feature, witness):
         """Materialise `data` as the result file, read it, resume on it, check.  -> bytes of the resumed file or None."""
-        gz = h['kind'] == 'gz'
         ids2tags = parts.triple_ids(h['shape'], h['order'])
         a = analyse(data, gz)
         have = rec_ids(a['records'])
         maybe = rec_ids(a['exempt'] + ([a['tail_record']] if a['tail_record'] is not None else []))     # may be kept or redone
-        path = self._path('cut', gz)
+        path = self._path('cut', h)
         with open(path, 'wb') as f: f.write(data)
         found = []
 
         # exceptions are keyed with the exact kind of crash point; wrong results / repeated work only with the file kind and
         # whether the file ends in a partial record (where the cut falls inside the file does not discriminate root causes there)
-        coarse = ('gz' if gz else 'plain') + (' file ending in a partial record' if a['tail'] else ' file of complete records')
+        coarse = ('gz' if gz else 'plain') + (' file ending in a partial record' if a['tail'] else ' file of complete records') + name_class(h)
 
         def bad(key, what, fine=False):
             found.append(key)
@@ -514,8 +607,8 @@ class C02(Check):
 
     def run_case(self, case, acc):
         h = case
-        gz = h['kind'] == 'gz'
         L, ref = self.reference(h)
+        gz = is_gz(L)           # the framing the real writer chose for this file name
         n = len(L)
         if 'k' in case:
             ks = [case['k']]
@@ -524,19 +617,23 @@ class C02(Check):
             if b0 - a0 <= 2 * BLOCK: raise HarnessError(f'the long record of {h} is only {b0 - a0} bytes')
             i, N = case['chunk']
             ks = allk[i * len(allk) // N:(i + 1) * len(allk) // N]
+        elif h.get('offsets') == 'align':       # a record boundary on a block boundary: every byte from just before it to the end + the block set
+            allk = sorted(set(block_offsets(L, gz)[0]) | set(range(max(0, h['align'][1] - 8), n + 1)) | {0, 1, 2, 3})
+            i, N = case['chunk']
+            ks = allk[i * len(allk) // N:(i + 1) * len(allk) // N]
         else:
             i, N = case['chunk']
             ks = range(i * (n + 1) // N, (i + 1) * (n + 1) // N)
-        hkey = [h['shape'], h['order'], h['lines'], h['kind']]
+        hkey = [h['shape'], h['order'], h['lines'], fname(h), h.get('align')]
         seen2 = set()       # second-level file contents already resumed in this case (same bytes + same experiment = same execution)
         for k in ks:
             data = L[:k]
-            feature = position(data, gz, complete=(k == n))
+            feature = position(data, gz, complete=(k == n)) + name_class(h)
             acc.count('prefixes')
             if k < n and analyse(data, gz)['tail']:
                 acc.mark_nontrivial(hkey + [k]); acc.count('prefixes_cut_inside_a_record')
             base = {kk: v for kk, v in case.items() if kk not in ('chunk', 'k', 'k2', 'level2', 'offsets')}
-            final = self.crash_point(h, data, ref, acc, feature, {**base, 'k': k})
+            final = self.crash_point(h, gz, data, ref, acc, feature, {**base, 'k': k})
             if not (h.get('level2') or 'k2' in case) or final is None: continue
             # ---- second-level crashes: the resumed run is killed as well
             cp = 0
@@ -550,9 +647,9 @@ class C02(Check):
                     acc.count('second_level_prefixes_already_resumed_in_this_case'); continue
                 seen2.add(d2)
                 acc.count('second_level_prefixes')
-                f2 = position(d2, gz)          # same classes as first-level crash points: one root cause, one key (the witness carries k2)
+                f2 = position(d2, gz) + name_class(h)          # same classes as first-level crash points: one root cause, one key (the witness carries k2)
                 if analyse(d2, gz)['tail']: acc.mark_nontrivial(hkey + [k, k2])
-                self.crash_point(h, d2, ref, acc, f2, {**base, 'k': k, 'k2': k2})
+                self.crash_point(h, gz, d2, ref, acc, f2, {**base, 'k': k, 'k2': k2})
         return None
 
     def replay(self, witness, acc):
